@@ -1,4 +1,4 @@
-(* C03, part 5: region geometry — tts:extent, tts:origin / tts:position, tts:padding.  None of them is inherited, so
+(* C03, part 5: region geometry — tts:extent, tts:disparity, tts:origin / tts:position, tts:padding.  None of them is inherited, so
    each is resolved on the element itself: against the root container, the cell and pixel resolutions, the element's
    own computed font size (em), its computed extent (position, padding percentages) and the writing mode. *)
 From TT Require Import Model.Doc Gen.StyleTables Model.Isd Spec.IsdSpec Spec.StyleSpec.
@@ -123,6 +123,60 @@ Proof.
   destruct (rel h _ _ _ _) as [h'|]; [|discriminate Hb]. cbn [bind] in Hb.
   destruct (rel w _ _ _ _) as [w'|]; [|discriminate Hb]. cbn [bind] in Hb. injection Hb as <-.
   exists h', w'. split; [|reflexivity]. rewrite (Hz p_Extent Fp1 Fp3). apply sget_sset_same.
+Qed.
+
+(* ---- tts:disparity ---------------------------------------------------------------------------------------------------- *)
+(* computed right after tts:fontSize: % of the root container width, c / px of the cell / pixel width, em of the own font size *)
+Definition disparity1 (d : doc) (t : Q) (x : link) (fs : option len) : option value :=
+  match own_or_default d t p_Disparity x with
+  | Some (VLen l) =>
+      match rel l (Some (mkLen 100 Urw)) fs (Some (cell_w d)) (Some (pixel_w d)) with
+      | Some l' => Some (VLen l')
+      | None => None
+      end
+  | _ => None
+  end.
+Lemma disparity_cons d t x up : disparity d t (x :: up) = disparity1 d t x (font_size d t (x :: up)).
+Proof. reflexivity. Qed.
+
+Lemma compute_prop_disparity d par st :
+  compute_prop d par st p_Disparity =
+  match sget st p_Disparity with
+  | Some (VLen l) =>
+      bind (compute_length l (Some (rw (qz 100))) (get_len st p_FontSize) (Some (c_w d)) (Some (px_w d))) (fun l' =>
+      Ok (sset st p_Disparity (VLen l')))
+  | _ => Err errCompute
+  end.
+Proof. reflexivity. Qed.
+
+Lemma disp_facts : In p_Disparity all_props /\ is_inherited p_Disparity = false /\ p_Disparity <> p_FontSize /\ p_Disparity <> p_TextDecoration /\
+  p_Disparity <> p_WritingMode /\ p_Disparity <> p_Direction /\ p_Disparity <> p_Position /\
+  exists pre post, ordered_style_props = pre ++ p_Disparity :: post /\ ~ In p_Disparity pre /\ ~ In p_Position pre /\ ~ In p_Disparity post /\
+               ~ In p_FontSize post /\ (In p_Position post -> p_Disparity <> p_Origin) /\ (In p_Position post -> p_FontSize <> p_Origin).
+Proof.
+  repeat split; try discriminate; try (cbn; tauto). exists (before p_Disparity ordered_style_props), (after p_Disparity ordered_style_props).
+  split; [reflexivity|]. repeat split; try notin; intros _; discriminate.
+Qed.
+
+Theorem style_phase_disparity d t a par (iv : interval) st fs :
+  is_leaf_kind (e_kind a) = false -> ctx a par -> style_phase d t a par iv = Ok st -> sget st p_FontSize = Some (VLen fs) ->
+  sget st p_Disparity = disparity1 d t (a, iv) (Some fs).
+Proof.
+  intros Hleaf Hctx H Hfs.
+  destruct disp_facts as (Fin & Fni & F1 & F2 & F3 & F4 & F5 & pre & post & Hord & Fq1 & Fq2 & Fp1 & Fp2 & Fp3 & Fp4).
+  destruct (style_phase_at d t a par iv st _ _ _ Hleaf H Hord Fin) as (s & s' & Ha & Hb & Hf & Hz).
+  destruct (pre_own d t a par iv _ Hctx Fin Fni F1 F2 F3 F4) as [Hv Ht]. rewrite Ht in Hb.
+  assert (Hs : sget s p_Disparity = own_or_default d t p_Disparity (a, iv)).
+  { rewrite (Ha _ Fin Fq1) by (intros X; contradiction (Fq2 X)). rewrite Hv. apply own_or_default_pre. exact F5. }
+  assert (Hsfs : get_len s p_FontSize = Some fs).
+  { unfold get_len. rewrite <- (Hf p_FontSize) by (first [congruence | intros X; discriminate X]).
+    rewrite <- (Hz p_FontSize Fp2 Fp4), Hfs. reflexivity. }
+  rewrite compute_prop_disparity, Hs, Hsfs in Hb. unfold disparity1.
+  destruct (own_or_default d t p_Disparity (a, iv)) as [[| | | |l| | | | | | | | | |]|]; try discriminate Hb.
+  rewrite compute_length_rel in Hb.
+  change (rw (qz 100)) with (mkLen 100 Urw) in Hb. change (c_w d) with (cell_w d) in Hb. change (px_w d) with (pixel_w d) in Hb.
+  destruct (rel l _ _ _ _) as [l'|]; [|discriminate Hb]. cbn [bind] in Hb. injection Hb as <-.
+  rewrite (Hz p_Disparity Fp1 Fp3). apply sget_sset_same.
 Qed.
 
 (* ---- tts:origin and tts:position --------------------------------------------------------------------------------------- *)
